@@ -368,11 +368,11 @@ def run(ctx):
                 res_t = x
         table = {}
         if res_t is not None:
-            for r in (0, 1, 2, 3, 29):
+            for r in range(0, 30):
                 v = _resolve_by_eval(ft, E, {strip_site(res_t): r}, {strip_site(res_t): r})
                 table[r] = const_int(v) if v is not None else None
-        want = {0: 12, 1: 5, 2: 4, 3: 4, 29: 4}
-        run.inst("C08.K3", "run-length-table", table == want, "E(resolution) = %s (hierarchy fan-out: 12 base cells, 5 quintants, 4 per level)" % table, w)
+        want = {r: (12 if r == 0 else 5 if r == 1 else 4) for r in range(0, 30)}
+        run.inst("C08.K3", "run-length-table", table == want, "E(resolution) = %s for every resolution 0..29 (hierarchy fan-out: 12 base cells, 5 quintants, 4 per level)" % ({r: v for r, v in table.items() if r < 4 or v != 4}), w)
     else:
         run.bad("C08.K3", "run-length-table", "run length is %s - unrecognised idiom" % fmt(E), w)
     # K4: every other push into the pass result copies the current cell
